@@ -315,3 +315,21 @@ class _Pairs:
         out = self.copy()
         out.rows[out.rows >= k] = -1        # rows were re-copied: fine
         return out
+
+
+class _LooseEq:
+    """pattern J: equality after broadcasting"""
+
+    def __init__(self, lengths):
+        self.lengths = np.asarray(lengths, dtype=float)
+
+    def __eq__(self, other):
+        return isinstance(other, _LooseEq) and np.array_equiv(self.lengths, other.lengths)
+
+
+class _StrictEq:
+    def __init__(self, lengths):
+        self.lengths = np.asarray(lengths, dtype=float)
+
+    def __eq__(self, other):
+        return isinstance(other, _StrictEq) and np.array_equal(self.lengths, other.lengths)
